@@ -168,13 +168,16 @@ let () =
       let body = String.sub line (p+1) (String.length line - p - 1) in
       let ops = List.filter (fun s -> s <> "") (String.split_on_char ';' body) in
       let regs = Array.make 8 empty_msg in
-      let stack : qfilter list ref = ref [] in
+      let stack : sobj list ref = ref [] in
+      let vbuf = Buffer.create 64 in
       let node : (n * byte list) option ref = ref None in
       let st = Buffer.create 64 in
       let reg s = let r = int_of_string s in if r < 0 || r > 7 then failwith "bad register" else r in
       let apply r o = let (m', ok) = step regs.(r) o in regs.(r) <- m'; ok in
-      let push f = stack := f :: !stack; true in
-      let pop_kids n = let ks = take n !stack in stack := drop n !stack; flist_of (List.rev ks) in
+      let push f = stack := fresh f :: !stack; true in
+      let regl () = Array.to_list regs in
+      let bits_obj o = let (bs, o') = obj_eval_all !smatch !node o (regl ()) in (String.concat "" (List.map (fun b -> if b then "1" else "0") bs), o') in
+      let pop_kids n = let ks = take n !stack in stack := drop n !stack; flist_of (List.rev_map so_filter ks) in
       List.iter (fun s ->
         let a = String.split_on_char ':' s in
         let ok =
@@ -212,25 +215,46 @@ let () =
               if v = "" then false       (* an empty value buffer is outside the modelled domain *)
               else push (FRaw (bytes_of_hex name, num idx, num8 op, num tc, opt_hex v, opt_hex d))
           | ["fm"; name; idx; haskid; dreg] ->
-              let kid = if haskid = "1" then (match !stack with k :: t -> stack := t; OSome k | [] -> ONone) else ONone in
+              let kid = if haskid = "1" then (match !stack with k :: t -> stack := t; OSome (so_filter k) | [] -> ONone) else ONone in
               push (FMsg (bytes_of_hex name, num idx, kid, (if dreg = "-" then None else Some regs.(reg dreg))))
           | ["f&"; n; c] -> let ks = pop_kids (int_of_string c) in push (FMin (num n, ks))
           | ["f~"; n; c] -> let ks = pop_kids (int_of_string c) in push (FMax (num n, ks))
           | ["f^"; c] -> let ks = pop_kids (int_of_string c) in push (FXor ks)
+          | ["ev"] ->
+              (match !stack with
+               | o :: t -> let (b, o') = bits_obj o in stack := o' :: t; Buffer.add_string vbuf (Printf.sprintf "%d V %s\n" k b); true
+               | [] -> false)
+          | ["sfa"] ->
+              (match !stack with
+               | g :: t :: rest ->
+                   (match obj_set_from_archive t (to_archive (so_filter g)) with
+                    | Ok o' -> stack := o' :: rest; true
+                    | _ -> stack := rest; false)
+               | _ -> false)
+          | ["so"; op] ->
+              (match !stack with
+               | o :: t -> (match so_filter o with FStr _ -> stack := obj_set_operator o (num8 op) :: t; true | _ -> false)
+               | [] -> false)
+          | ["sv"; v] ->
+              (match !stack with
+               | o :: t -> (match so_filter o with FStr _ -> stack := obj_set_value o (bytes_of_hex v) :: t; true | _ -> false)
+               | [] -> false)
           | ["h"; r] -> (match from_archive regs.(reg r) with Ok f -> push f | _ -> false)
           | ["e"; hex] ->
               (match !parse_expr with
-               | None -> (match !stack with f :: _ -> push f | [] -> false)    (* no parser linked: the denoted tree itself *)
+               | None -> (match !stack with f :: _ -> push (so_filter f) | [] -> false)    (* no parser linked: the denoted tree itself *)
                | Some pf -> (match pf (bytes_of_hex hex) with Some f -> push f | None -> false))
           | _ -> failwith ("bad op " ^ s) in
         Buffer.add_char st (if ok then '1' else '0')) ops;
       Printf.printf "%d B %s\n" k (Buffer.contents st);
+      print_string (Buffer.contents vbuf);
       (match !stack with
        | [] -> Printf.printf "%d F none\n" k
-       | f :: _ ->
+       | o :: _ ->
+           let f = so_filter o in
            let bits g = String.concat "" (List.map (fun m -> if eval !smatch !node g m then "1" else "0") (Array.to_list regs)) in
            Printf.printf "%d F %s\n" k (desc_filter f);
-           Printf.printf "%d D %s\n" k (bits f);
+           Printf.printf "%d D %s\n" k (fst (bits_obj o));
            let a = to_archive f in
            Printf.printf "%d A %s\n" k (desc_msg a);
            (match from_archive a with
